@@ -60,10 +60,15 @@ def gen_case(run, i):
     src, ref = rasters.pair_geometry(rng, family, proc, max_src=30, margin=(1, 3), avoid_aligned_edges=True)
     if proc == 'auto' and want_src_grid != (src.px > ref.px) and src.px != ref.px:
         proc = 'src' if want_src_grid else 'ref'
+    tie = i % 4 == 3
+    if tie:
+        # every fourth case: reference-grid block seams that are exact rounding ties on the source grid, many blocks
+        family, proc = 'dyadic', 'auto'
+        src, ref = rasters.tie_geometry(rng)
     return dict(i=i, family=family, proc=proc, src=src.to_dict(), ref=ref.to_dict(), model=model, hyp=hyp,
                 kernel=rng.choice([(1, 1), (3, 3), (3, 5), (5, 3), (5, 5), (7, 5)]) if model != 'gain-offset'
                 else rng.choice([(3, 3), (3, 5), (5, 5), (5, 3)]),
-                halvings=rng.choice([0, 1, 2, 3, 4, 5]), threads=rng.choice([1, 1, 2]),
+                halvings=rng.choice([0, 1, 2, 3, 4, 5]) if not tie else rng.choice([3, 4, 5]), threads=rng.choice([1, 1, 2]),
                 pattern=rng.choice(['holes', 'border', 'single', 'stripes', 'ragged', 'holes']),
                 upsampling=rng.choice(['cubic_spline', 'cubic_spline', 'nearest', 'bilinear']) if hyp
                 else rng.choice(['cubic_spline', 'cubic', 'lanczos', 'bilinear']),
